@@ -307,11 +307,21 @@ def run_case(c, rng):
                 rnow = 'CLOSED' if int(S[tgt].values[i]) == 0 else 'OPEN'
                 if rprev == cs['value'] or rnow != cs['value']:
                     continue        # the reported status did not change with it (the link was/is held by an internal rule): no partial step is needed
+                if cs['value'] == 'OPEN' and tr.saved[i - 1]['internal_status'].get(tgt) == 0:
+                    # the link was held closed by its own check valve / pump rule / a tank limit at the previous instant: commanding it
+                    # open changed nothing until that internal rule released it (at a regular step), so no partial step was due
+                    c.count('overshoot_skipped_internal_release')
+                    continue
                 tk = tanks[cs['source']]
                 lvl_prev = float(P[cs['source']].values[i - 1]) if cs['sattr'] in ('level', 'pressure') else float(H[cs['source']].values[i - 1])
                 was_true = (lvl_prev - cs['threshold'] > 0) if cs['op'] in ('>', '>=') else (lvl_prev - cs['threshold'] < 0)
                 if was_true:
                     continue        # it held before (the target was switched by something else): no crossing in this step
+                if abs(lvl_prev - cs['threshold']) <= margin:
+                    # the previous instant sat on the threshold itself (e.g. init_level == threshold): the crossing is a zero-length
+                    # step, which neither engine inserts
+                    c.count('overshoot_skipped_started_on_threshold')
+                    continue
                 # other controls on the same target could have caused the switch: only judge when this is the only true one
                 others = [o for o in conds if o is not cs and o['target'] == tgt and state[o['name']][0] != 'F']
                 if others:
